@@ -514,8 +514,96 @@ def check_multi_base(kind):
         e2e.unload(mod)
 
 
+def check_union_default(kind, first_required, default, order):
+    """a non-required member that accepts two object models (and possibly a scalar) with a default that belongs to the second
+    alternative: leaving the member out reads the schema's default"""
+    cat = {"type": "object", "properties": {"name": {"type": "string"}}, **({"required": ["name"]} if first_required else {})}
+    dog = {"type": "object", "properties": {"bark": {"type": "integer"}}}
+    alts = [{"$ref": "#/definitions/Cat"}, {"$ref": "#/definitions/Dog"}]
+    if order == "scalar-first":
+        alts = [{"type": "string"}] + alts
+    sch = {"title": "M", "type": "object", "properties": {"one": {"anyOf": alts, "default": default}, "z": {"type": "integer"}}, "definitions": {"Cat": cat, "Dog": dog}}
+    g = e2e.generate(json.dumps(sch), kind=kind, **parser_opts(PLAIN))
+    if not g.ok:
+        return None
+    mod, err = e2e.load_module(g.text, kind)
+    if err:
+        return None
+    try:
+        make, get = make_api(kind, mod)
+        try:
+            obj = make({})
+        except Exception as e:  # noqa: BLE001
+            return f"the non-required member with default {default!r} cannot be left out: {str(e)[:120]}"
+        v = get(obj, "one")
+        for attr in ("model_dump", "dict"):
+            if hasattr(v, attr):
+                v = {k: x for k, x in getattr(v, attr)().items() if x is not None}
+                break
+        if v != default:
+            line = next((l.strip() for l in g.text.splitlines() if l.strip().startswith("one")), "")
+            return f"omitted member reads {v!r}, the schema default is {default!r} (written `{line}`)"
+        return None
+    finally:
+        e2e.unload(mod)
+
+
+def check_shared_primitive(kind):
+    """OpenAPI, --strict-nullable: one nullable string / integer somewhere in the document must not make the other string / integer
+    members of the document nullable or optional"""
+    doc = {"openapi": "3.0.0", "info": {"title": "t", "version": "1"}, "paths": {},
+           "components": {"schemas": {"Note": {"type": "object", "properties": {"text": {"type": "string", "nullable": True}, "size": {"type": "integer", "nullable": True}}},
+                                      "M": {"type": "object", "required": ["name", "count"],
+                                            "properties": {"name": {"type": "string"}, "count": {"type": "integer"}, "label": {"type": "string", "default": "x"},
+                                                           "note": {"$ref": "#/components/schemas/Note"}}}}}}
+    g = e2e.generate(json.dumps(doc), kind=kind, file_type="openapi", strict_nullable=True)
+    if not g.ok:
+        return None
+    mod, err = e2e.load_module(g.text, kind)
+    if err:
+        return None
+    try:
+        make, get = make_api(kind, mod)
+        try:
+            make({"name": "n", "count": 1})
+        except Exception as e:  # noqa: BLE001
+            return f"M instance with exactly the required members is rejected: {str(e)[:100]}"
+        for n in ("name", "count"):
+            for d in ({k: v for k, v in {"name": "n", "count": 1}.items() if k != n}, {"name": "n", "count": 1, n: None}):
+                try:
+                    make(d)
+                    return f"required non-nullable member {n!r} may be {'left out' if n not in d else 'null'} (another member of the same primitive type is nullable)"
+                except Exception:  # noqa: BLE001
+                    pass
+        try:
+            make({"name": "n", "count": 1, "label": None})
+            return "non-nullable member 'label' (with a default) accepts null"
+        except Exception:  # noqa: BLE001
+            pass
+        return None
+    finally:
+        e2e.unload(mod)
+
+
 def falsify(ctx):
     rng = ctx.rng("fals")
+    for kind in KINDS[:2]:
+        for first_required in (False, True):
+            for default in ({"bark": 3}, {"name": "tom"}, {"bark": 0}):
+                for order in ("models", "scalar-first"):
+                    if first_required and "name" in default:
+                        pass
+                    ctx.count("eval_e2e")
+                    ctx.nontrivial(("union-default", kind, first_required, json.dumps(default), order))
+                    why = check_union_default(kind, first_required, default, order)
+                    if why:
+                        ctx.violation(f"union-default:{kind}:{first_required}:{json.dumps(default)}:{order}", f"{kind}: {why}",
+                                      {"union_default": [first_required, default, order], "kind": kind, "why": why})
+        ctx.count("eval_e2e")
+        ctx.nontrivial(("shared-primitive", kind))
+        why = check_shared_primitive(kind)
+        if why:
+            ctx.violation(f"shared-primitive:{kind}", f"{kind} OpenAPI --strict-nullable: {why}", {"shared_primitive": True, "kind": kind, "why": why})
     for kind in KINDS[:2]:   # pydantic v2 / v1 (dataclass inheritance with defaults is C02-dataclass-default-order)
         ctx.count("eval_e2e")
         ctx.nontrivial(("multi-base", kind))
@@ -593,6 +681,10 @@ def falsify(ctx):
 
 def replay_finding(ctx, f):
     r = f["replay"]
+    if "union_default" in r:
+        return check_union_default(r["kind"], *r["union_default"]) is not None
+    if "shared_primitive" in r:
+        return check_shared_primitive(r["kind"]) is not None
     if "multi_base" in r:
         return check_multi_base(r["kind"]) is not None
     if "required_part" in r:
@@ -610,6 +702,10 @@ def replay(ctx, payload):
         return 1 if why else 0
     if "inherited_required" in r:
         why = check_inherited_required(r["kind"], r["opts"], r["inherited_required"])
+        print("replay:", why or "no violation")
+        return 1 if why else 0
+    if "union_default" in r or "shared_primitive" in r:
+        why = check_union_default(r["kind"], *r["union_default"]) if "union_default" in r else check_shared_primitive(r["kind"])
         print("replay:", why or "no violation")
         return 1 if why else 0
     if "multi_base" in r:
